@@ -552,12 +552,19 @@ def check_remover(ctx):
         for a in m.sync[reg]:
             out |= m.reads(a, guard=False)
         return sorted((out - regs) & set(m.comb))
-    vd, vc, vn = feeders(DBUF), feeders(CBUF), feeders(CNT)
+    dyn = regs | {ORDY}
+    vd, vc = feeders(DBUF), feeders(CBUF)
+    # the new-byte count: the one combinational signal computed from the input word alone that the count update or the
+    # buffer pushes consult -- in a right-hand side (count + new) or in a guard (Switch/Case on the number of new bytes)
+    vn = set()
+    for reg in (CNT, DBUF, CBUF):
+        for a in m.sync[reg]:
+            vn |= m.reads(a, guard=True)
+    vn = sorted(s for s in (vn - regs) & set(m.comb) if not (m.cone(s) & dyn) and s not in vd + vc)
     ctx.need(len(vd) == 1 and len(vc) == 1 and len(vn) == 1 and len({vd[0], vc[0], vn[0]}) == 3,
              'the compacted data word, compacted ctrl word and new-byte count are one combinational signal each '
              '(read by the data buffer / ctrl buffer / count updates; found %s / %s / %s)' % (vd, vc, vn))
     VD, VC, VN = vd[0], vc[0], vn[0]
-    dyn = regs | {ORDY}
     for s in (VD, VC, VN):
         ctx.need(not (m.cone(s) & dyn), 'the compacted word signal %s depends on the input word only (reads %s)' % (s, sorted(m.cone(s) & dyn)))
     static_names = frozenset(s for s in m.comb if not (m.cone(s) & dyn))
